@@ -356,6 +356,26 @@ Example ex_encoder_file :
   | None => False end.
 Proof. vm_compute. reflexivity. Qed.
 
+(* C02 at file level: the strict stream validator — tag, STREAMINFO, every frame parses with valid CRCs, is well-formed
+   and RFC-valid, RE-SERIALISES TO THE VERY BYTES IT WAS PARSED FROM (zero padding, minimal number coding), fixed-blocksize
+   strategy with frame numbers 0,1,2,..., the advertised block size on every frame but the last, no block under 16 samples
+   except the last, total consistent with STREAMINFO — accepts every file the encoder model writes and yields the blocks *)
+Theorem C02_encoder_file_valid : forall o L si others blocks bytes,
+  enc_blocks o L (si_rate si) (si_bps si) 0 blocks = Some bytes ->
+  si_ok si -> blocks_ok others ->
+  Forall (block_ok si (si_bps si)) blocks ->
+  N.of_nat (length blocks) <= MAX_FRAME_NUMBER + 1 ->
+  full_but_last si blocks ->
+  16 <= si_min_bs si -> si_min_bs si <= si_max_bs si ->
+  (si_total si = 0 \/ blocks_samples blocks = si_total si) ->
+  spec_stream (file_of si others bytes) = Ok (si, blocks).
+Proof. exact enc_file_spec_valid. Qed.
+Example ex_encoder_file_valid :
+  match enc_blocks ex_opts None 44100 16 0 [ex_block] with
+  | Some b => spec_stream (file_of ex_si [(4, [0; 0; 0; 0; 0; 0; 0; 0])] b) = Ok (ex_si, [ex_block])
+  | None => False end.
+Proof. vm_compute. reflexivity. Qed.
+
 (* C14 at file level: provisional header (STREAMINFO with the declared or zero total, any further blocks), complete
    frames, then a frame cut at any byte: the file still opens and yields exactly the complete frames *)
 Theorem C14_interrupted_file : forall si others fs allb g gb m,
